@@ -229,7 +229,7 @@ fn zero_right_pad_integer_ascii_digits(
 
     // did not explicitly request precision, so we'll only
     // implicitly right-pad if less than this threshold.
-    if target_scale.is_none() && integer_zero_count > 20 {
+    if target_scale.is_none() && integer_zero_count > EXPONENTIAL_FORMAT_TRAILING_ZERO_THRESHOLD {
         // no padding
         return;
     }
